@@ -77,9 +77,16 @@ def scan (A : Nat → Nat → Rat) (n : Nat) (u v : Nat → Rat) (used : Nat →
     (minv : Nat → Option Rat) (way : Nat → Nat) : Scan :=
   (List.range' 1 n).foldl (scanStep A u v used i0 j0) ⟨minv, way, none, 0⟩
 
-/-- `for j in range(n + 1): if used[j]: row_potential[col_match[j]] += delta` (sequential) -/
+/-- `for j in range(n + 1): if used[j]: row_potential[col_match[j]] += delta` (sequential).
+Specification form (a fold of closures; compiled, each layer would call the previous one twice). -/
 def bumpU (n : Nat) (used : Nat → Bool) (p : Nat → Nat) (d : Rat) (u : Nat → Rat) : Nat → Rat :=
   (List.range (n + 1)).foldl (fun u j => if used j then upd u (p j) (u (p j) + d) else u) u
+
+/-- the same loop on tabulated functions (what the driver runs); `bumpT_get` (Certify.lean):
+`(bumpT n used p d t).get = bumpU n used p d t.get` -/
+def bumpT (n : Nat) (used : Nat → Bool) (p : Nat → Nat) (d : Rat) (t : Tab Rat) : Tab Rat :=
+  (List.range (n + 1)).foldl
+    (fun t j => if used j then Tab.of n (upd t.get (p j) (t.get (p j) + d)) else t) t
 
 /-! ### the `while col_match[current_col] != 0` loop -/
 
@@ -103,7 +110,7 @@ def search (A : Nat → Nat → Rat) (n : Nat) (p : Nat → Nat) : Nat → Loop 
       | none => { s with stuck := true }
       | some d =>
         search A n p fuel
-          { u := Tab.of n (bumpU n used p d s.u.get)
+          { u := bumpT n used p d s.u
             v := Tab.of n fun j => if used j then s.v.get j - d else s.v.get j
             way := Tab.of n sc.way
             minv := Tab.of n fun j => if used j then sc.minv j else (sc.minv j).map (· - d)
